@@ -22,10 +22,11 @@ OutcomeOf(e) == [exit |-> e.exit, says_fail |-> e.says_fail, want |-> PairSet(e.
                  outs_ok |-> /\ (e.need_outs => Len(e.outs) > 0)
                              /\ \A i \in 1..Len(e.outs) : e.outs[i] = "ok",
                  view_ok |-> ToSet(e.view) = ToSet(e.libview),
+                 pre_ok |-> e.fresh_tok = "" \/ (e.out_tok = e.fresh_tok /\ e.out_len = e.fresh_len),
                  rt_ok |-> ~(RtApplies(e) /\ <<e.kind, e.rt_dir>> \in RoundTripExact /\ e.rt_in # e.rt_back)]
 
 WellFormed(e) == /\ <<e.fam, e.cmd>> \in AllCmds /\ e.input \in Inputs /\ e.lib \in LibVerdicts
-                 /\ e.libval \in {"ok", "fail", "n/a"}
+                 /\ e.libval \in {"ok", "fail", "n/a"} /\ e.pre \in PreStates
 
 TInit == tl = 1 /\ Init /\ vdisk = EmptyMap
 Step(e) == CASE e.ev = "Reset" -> TRUE
